@@ -130,7 +130,27 @@ func c06ReorgBracket(c *rep.Ctx) {
 	}
 	g := f.Graph()
 	wr := errGate(c, f, "chain.(*ReorgMarker).write")
-	steps := sitesOf(f, "chain.(*reorganizer).deleteOldReceipts", "chain.(*reorganizer).swapTxMapping", "chain.(*reorganizer).swapChainMapping")
+	steps := sitesOf(f, "chain.(*reorganizer).swapTxMapping", "chain.(*reorganizer).swapChainMapping")
+	// the receipt deletion: any call of swapChain (other than the two swaps) from which the receipt deleter is reachable
+	isDel := map[*ast.CallExpr]bool{}
+	if delFn := c.Prog.Func("chain.(*ChainDB).deleteReceiptsAndOperations"); delFn != nil {
+		cg := c.Prog.BuildCallGraphCached()
+		reach := cg.MayReach(map[*an.Func]bool{delFn: true}, func(e an.Edge) bool { return an.Rel(e.Caller.Pkg.PkgPath) == "chain" })
+		for _, s := range g.Calls(func(fn *types.Func, call *ast.CallExpr) bool {
+			if fn == nil {
+				return false
+			}
+			name := an.FuncName(fn)
+			if name == "chain.(*reorganizer).swapTxMapping" || name == "chain.(*reorganizer).swapChainMapping" {
+				return false
+			}
+			cf := c.Prog.Func(name)
+			return cf != nil && reach[cf]
+		}) {
+			steps = append(steps, s)
+			isDel[s.Call] = true
+		}
+	}
 	if len(steps) != 3 {
 		c.Undecide("reorg-bracket", "chain.(*reorganizer).swapChain", "the three destructive steps were not found")
 	}
@@ -139,8 +159,8 @@ func c06ReorgBracket(c *rep.Ctx) {
 	ok := len(del) == 1
 	if ok {
 		for _, s := range steps {
-			switch an.FuncName(s.Fn) {
-			case "chain.(*reorganizer).deleteOldReceipts":
+			switch {
+			case isDel[s.Call]:
 				ok = ok && g.Dominated(del[0].Node, an.SetOf(s.Node))
 			default:
 				e := g.ErrNilEdges(s)
